@@ -162,6 +162,20 @@ pub fn exec(op: &str, a: &[String]) -> Option<Reply> {
             let tree = show_parse(&real_parse(&q)).replace('\t', " ");
             Some(Reply { obs: vec![tree], reply: real_match(&q, &ev) })
         }
+        ("c31.regex", [kind, pat, text]) => {
+            // the law assumed of the regex engine, sampled on the real `regex` crate through vrl's own builders
+            let (pat, text) = (uhs(pat)?, uhs(text)?);
+            let kind = kind.clone();
+            Some(Reply::plain(match guarded(move || match kind.as_str() {
+                "w" => Some(vrl::datadog_filter::regex::wildcard_regex(&pat).is_match(&text)),
+                "b" => Some(vrl::datadog_filter::regex::word_regex(&pat).is_match(&text)),
+                _ => None,
+            }) {
+                Ok(Some(b)) => if b { "true".into() } else { "false".into() },
+                Ok(None) => return None,
+                Err(_) => "panic".to_string(),
+            }))
+        }
         ("c31.path", [t]) => {
             let t = uhs(t)?;
             Some(Reply::plain(match guarded(move || vrl::path::parse_value_path(&t)) {
@@ -389,6 +403,17 @@ pub fn generate(sink: &mut Sink, rng: &mut Rng, n: u64) {
     }
     for _ in 0..(n / 4).max(50) {
         sink.emit("c31.path", &[hs(&gen_path_text(rng))]);
+    }
+    // the regex engine law: reference glob matcher vs the real regex crate
+    const RPATS: &[&str] = &["foo", "foo*", "*foo", "f*o", "*", "", "foo bar", "a.b", "a*b*c", "**", "f?o", "(x)", "a\\b", "-a", "a-", "foo_bar",
+        "Foo", "é*", "k:5", "env:pro*", "*:*", "a+b", "[a]", "^a$", "a|b", "\\*", "o"];
+    const RTEXTS: &[&str] = &["foo", "foobar", "foo bar", "bar foo baz", "xfoo", "foo-bar", "foo_bar", "", "f o", "fo", "fxxo", "foo\nbar",
+        "a.b", "axb", "abc", "a b c", "(x)", "a\\b", "-a", "b-a-", "Foo", "FOO", "ébc", "k:5", "env:prod", "a+b", "[a]", "^a$", "a|b", "*", "o", "oo o"];
+    for _ in 0..(n / 2).max(200) {
+        let kind = if rng.chance(1, 2) { "w" } else { "b" };
+        let pat = *rng.pick(RPATS);
+        let text = *rng.pick(RTEXTS);
+        sink.emit("c31.regex", &[kind.to_string(), hs(pat), hs(text)]);
     }
     // fixed (query, event) pairs: the documented examples and the known deviations
     let fixed: &[(&str, &str)] = &[
